@@ -360,7 +360,7 @@ def run(ctx):
                  "C09": "start from a state with a populated cache and ran or skipped something",
                  "C14": "carry --force and start from a state with a populated cache",
                  "C10": "were killed or start from a torn cache"}[pid],
-        "programs": [{"name": r["prog"], "real_states": r["summ"]["states"], "real_edges": r["summ"]["edges"],
+        "per_program": [{"name": r["prog"], "real_states": r["summ"]["states"], "real_edges": r["summ"]["edges"],
                       "real_invocations": r["summ"]["invocations"], "tlc_product_distinct": r["tlc"].distinct,
                       "tlc_product_generated": r["tlc"].generated, "depth": r["tlc"].depth,
                       "random_walks": {k: v for k, v in r.get("walks", {}).items() if k != "violation"}} for r in results],
